@@ -166,7 +166,21 @@ pub fn vis_policy(cfg: &Cfg) -> VisibilityPolicy {
     }
 }
 
+/// Which part of the library an app is built with (`Cfg::split_plugins`): everything (every app of the repository's tests,
+/// a listen server), a dedicated server (no client plugins), or a pure client (no server plugins).
+#[derive(Clone, Copy, PartialEq, Eq, Debug)]
+pub enum Role {
+    Both,
+    Server,
+    Client,
+}
+
 pub fn make_app(cfg: &Cfg, mismatch: bool) -> App {
+    make_app_role(cfg, mismatch, Role::Both)
+}
+
+pub fn make_app_role(cfg: &Cfg, mismatch: bool, role: Role) -> App {
+    use bevy::app::PluginGroup;
     let mut app = App::new();
     let tick_policy = match cfg.policy {
         0 => TickPolicy::Manual,
@@ -178,14 +192,19 @@ pub fn make_app(cfg: &Cfg, mismatch: bool) -> App {
         1 => AuthMethod::Custom,
         _ => AuthMethod::ProtocolCheck,
     };
-    app.add_plugins((
-        MinimalPlugins,
-        RepliconPlugins.set(RepliconSharedPlugin { auth_method }).set(ServerPlugin {
-            tick_policy,
-            visibility_policy: vis_policy(cfg),
-            mutations_timeout: Duration::from_millis(cfg.timeout_ms.max(1)),
-        }),
-    ));
+    let server_plugin = ServerPlugin { tick_policy, visibility_policy: vis_policy(cfg), mutations_timeout: Duration::from_millis(cfg.timeout_ms.max(1)) };
+    let group = RepliconPlugins.build().set(RepliconSharedPlugin { auth_method });
+    let group = match role {
+        Role::Both => group.set(server_plugin),
+        Role::Server => group.set(server_plugin).disable::<ClientPlugin>().disable::<ClientEventPlugin>(),
+        Role::Client => group.disable::<ServerPlugin>().disable::<ServerEventPlugin>(),
+    };
+    app.add_plugins((MinimalPlugins, group));
+    let with_client = role != Role::Server;
+    let with_server = role != Role::Client;
+    // `sync_related_entities` is an extension trait of the server module (feature `server`): its observers read server
+    // resources, so a pure client does not (and, built without that feature, cannot) call it
+    let sync = cfg.sync && with_server;
     app.insert_resource(TimeUpdateStrategy::ManualDuration(Duration::from_millis(10)));
     if cfg.custom_fns == 0 {
         app.replicate::<A>();
@@ -221,11 +240,11 @@ pub fn make_app(cfg: &Cfg, mismatch: bool) -> App {
     }
     if cfg.owners {
         app.replicate::<OwnedBy>();
-        if cfg.sync {
+        if sync {
             app.sync_related_entities::<OwnedBy>();
         }
     }
-    if cfg.sync {
+    if sync {
         app.sync_related_entities::<ChildOf>();
     }
     if cfg.track {
@@ -255,6 +274,7 @@ pub fn make_app(cfg: &Cfg, mismatch: bool) -> App {
         .init_resource::<DisconnectRequests>()
         .init_resource::<BadPayload>()
         .init_resource::<TickLog>();
+    if with_client {
     app.add_systems(
         PreUpdate,
         (|mut r: EventReader<bevy_replicon::client::server_mutate_ticks::MutateTickReceived>, mut log: ResMut<TickLog>| {
@@ -264,7 +284,9 @@ pub fn make_app(cfg: &Cfg, mismatch: bool) -> App {
         })
         .after(ClientSet::Receive),
     );
+    }
     app.add_systems(Update, (client_emit, server_emit));
+    if with_client {
     app.add_systems(
         PreUpdate,
         (
@@ -295,6 +317,8 @@ pub fn make_app(cfg: &Cfg, mismatch: bool) -> App {
         let target = tr.target();
         log.0.push((SK::Trig, tr.event().0, t.get(), (target != Entity::PLACEHOLDER).then_some(target)));
     });
+    }
+    if with_server {
     app.add_systems(
         PreUpdate,
         (
@@ -338,6 +362,7 @@ pub fn make_app(cfg: &Cfg, mismatch: bool) -> App {
         let target = tr.target();
         log.0.push((CK::Trig, tr.event().event.0, tr.event().client, (target != Entity::PLACEHOLDER).then_some(target)));
     });
+    }
     if cfg.auth == 2 {
         app.add_observer(|_tr: Trigger<ProtocolMismatch>, mut seen: ResMut<MismatchSeen>| {
             seen.0 += 1;
